@@ -62,6 +62,38 @@ func (f *faultReader) fail() error {
 
 // multiErr is an error value of a non-comparable type (a list of causes), as error-joining
 // helpers produce: it can be returned and wrapped, but not used as a map key.
+// deadSource is a random source without state: a value type whose zero value is the source. It
+// fails at once (k = 0).
+type deadSource struct{}
+
+func (deadSource) Read([]byte) (int, error) { return 0, errEntropy }
+
+// c20DeadSource: every operation that takes a random source, given a deadSource value.
+func c20DeadSource(c C20Case, base *biscuit.Biscuit, priv ed25519.PrivateKey) *obs.Violation {
+	try := func(what string, f func() (*biscuit.Biscuit, error)) (v *obs.Violation) {
+		defer func() {
+			if p := recover(); p != nil {
+				v = obs.ViolK("panic", "%s with a stateless source that fails at once: panic: %v", what, p)
+			}
+		}()
+		if tok, err := f(); err == nil || tok != nil {
+			return obs.ViolK("dead-source", "%s with a stateless source that fails at once (a zero-sized value type): expected an error and no token, got token=%v err=%v", what, tok != nil, err)
+		}
+		return nil
+	}
+	if v := try("Builder.Build", func() (*biscuit.Biscuit, error) {
+		return biscuit.NewBuilder(priv, biscuit.WithRNG(deadSource{})).Build()
+	}); v != nil {
+		return v
+	}
+	if v := try("biscuit.New", func() (*biscuit.Biscuit, error) {
+		return biscuit.New(deadSource{}, priv, &datalog.SymbolTable{}, biscuit.NewBlockBuilder(&datalog.SymbolTable{}).Build())
+	}); v != nil {
+		return v
+	}
+	return try("Append", func() (*biscuit.Biscuit, error) { return base.Append(deadSource{}, base.CreateBlock().Build()) })
+}
+
 type multiErr []error
 
 func (e multiErr) Error() string { return fmt.Sprint([]error(e)) }
@@ -203,6 +235,9 @@ func checkC20(c C20Case, rec *obs.Recorder) *obs.Violation {
 	reloaded, err := biscuit.Unmarshal(ser)
 	if err != nil {
 		return obs.Violf("unmarshal: %v", err)
+	}
+	if v := c20DeadSource(c, fresh, priv); v != nil {
+		return v
 	}
 	shape := c.Authority.Key() + c.Later.Key()
 	chunks := []int{0, 1, c.Chunk}
